@@ -7,11 +7,11 @@ import SkNet.Lemmas.Ingest
 namespace SkNet.Ingest
 
 /-- A file made of comment lines followed by data rows, where what `np.genfromtxt` converts is exactly what
-    `csv.reader` returns: no comment character inside a row, no surrounding blanks, no blank row. -/
+    `csv.reader` returns: no surrounding blanks, no blank row, no quote (`c` is the comment guess of the
+    scan, kept as a parameter of the statement only: a comment character inside a row is an ordinary character). -/
 structure CleanFile (d c : Char) (comments : List Char) (header body : List String) : Prop where
   header_comment : ∀ s ∈ header, comments.any (fun c => s.toList.head? = some c) = true
   body_data : ∀ s ∈ body, comments.any (fun c => s.toList.head? = some c) = false
-  no_tail : ∀ s ∈ body, cutComment c s = s
   stripped : ∀ s ∈ body, stripSp s = s ∧ s ≠ ""
   notblank : ∀ s ∈ body, strip s ≠ ""
   fields : ∀ s ∈ body, (splitAt d s).map strip = splitAt d s
@@ -43,12 +43,8 @@ theorem notblank_filter (body : List String) (h : ∀ s ∈ body, strip s ≠ ""
 
 theorem genRows_clean (d c : Char) (comments : List Char) (header body : List String)
     (h : CleanFile d c comments header body) :
-    genRows d c body = body.map (splitAt d) := by
+    genRows d body = body.map (splitAt d) := by
   unfold genRows
-  have h3 : body.map (cutComment c) = body := by
-    conv => rhs; rw [← List.map_id body]
-    exact List.map_congr_left (fun s hs => h.no_tail s hs)
-  rw [h3]
   have h4 : body.map stripSp = body := by
     conv => rhs; rw [← List.map_id body]
     exact List.map_congr_left (fun s hs => (h.stripped s hs).1)
@@ -451,7 +447,7 @@ theorem tuplesOf_three (num : String → Option Rat) (R : List (List String)) (h
 /-- **the edge-list branch of `from_csv` on a clean file is `from_edge_list` of the rows.** -/
 theorem fromCsv_clean (symW : Flags → Bool) (num : String → Option Rat) (header body : List String)
     (a : CsvArgs) (f : Flags) (d c : Char)
-    (hd : csvDelimiter (header ++ body) a = d) (hc : (csvScan (header ++ body) a).comment = c)
+    (hd : csvDelimiter (header ++ body) a = d) (_hc : (csvScan (header ++ body) a).comment = c)
     (hlayout : a.layout.getD (csvScan (header ++ body) a).layout = .edgeList)
     (hclean : CleanFile d c a.comments header body)
     (hne : body ≠ [])
@@ -461,7 +457,7 @@ theorem fromCsv_clean (symW : Flags → Bool) (num : String → Option Rat) (hea
     fromCsvWith symW num (header ++ body) a f
       = fromEdgeListWith symW (intOfNum num) (tuplesOf num (body.map (splitAt d))) f := by
   unfold fromCsvWith
-  simp only [hlayout, hd, hc]
+  simp only [hlayout, hd]
   rw [dataLines_clean a.comments header body hclean.header_comment hclean.body_data,
       notblank_filter body hclean.notblank, genRows_clean d c a.comments header body hclean]
   unfold csvRows
